@@ -17,7 +17,6 @@ import (
 	"fmt"
 	"math/rand"
 	"os"
-	"regexp"
 	"runtime"
 	"sort"
 	"strings"
@@ -127,7 +126,7 @@ func run(c *lib.Ctx) error {
 				c.Logf("as-is model with %s: no counterexample", res)
 				return nil
 			}
-			cfg, sched, err := scheduleOf(r)
+			cfg, sched, _, err := drv.ScheduleOf(r)
 			if err != nil {
 				return lib.Infra("cannot turn the counterexample into a schedule: %v\n%s", err, r.ErrTrace)
 			}
@@ -273,121 +272,24 @@ type item struct {
 	rc   replayCase
 }
 
-var reL = regexp.MustCompile(`(?m)^/\\ l = (\d+)`)
-
-// position returns the number of events matched when TLC stopped (high-water mark, or the trace position
-// of the violating state).
-func position(v *lib.TraceVerdict) int {
-	if v.InvName != "" && v.Result != nil {
-		ms := reL.FindAllStringSubmatch(v.Result.ErrTrace, -1)
-		if len(ms) > 0 {
-			var l int
-			fmt.Sscan(ms[len(ms)-1][1], &l)
-			// the violating state is the one AFTER event l-1 was matched; an action property names the step into it
-			return l - 1
-		}
-	}
-	return v.HighWater
-}
-
+// judgeAll hands every recorded run to TLC (drv.JudgeAll). Runs that show the pattern of the known finding
+// (classification only, never a verdict) are judged in their own sequence.
 func judgeAll(c *lib.Ctx, dir string, items []item, capKnown int) error {
-	pattern := func(it item) bool {
-		return it.rc.Module == "TracePeach" && it.rc.Cfg.Mode == "peach" && it.rc.Cfg.Bound == 1 && startsAfterNonOk(it.rc.Events)
-	}
-	type seq struct {
-		module string
-		idx    []int
-		cap    int
-	}
-	var seqs []seq
-	var pat []int
-	open := map[string]*seq{}
-	size := map[string]int{}
-	for i, it := range items {
-		if pattern(it) {
-			pat = append(pat, i)
-			continue
+	var its []drv.Item
+	npat := 0
+	for _, it := range items {
+		known := it.rc.Module == "TracePeach" && it.rc.Cfg.Mode == "peach" && it.rc.Cfg.Bound == 1 && startsAfterNonOk(it.rc.Events)
+		if known {
+			npat++
 		}
-		m := it.rc.Module
-		if open[m] == nil {
-			open[m] = &seq{module: m, cap: 1 << 30}
-		}
-		open[m].idx = append(open[m].idx, i)
-		size[m] += len(it.rc.Events)
-		if size[m] > 4000 {
-			seqs = append(seqs, *open[m])
-			open[m], size[m] = nil, 0
-		}
+		its = append(its, drv.Item{What: it.what, Module: it.rc.Module, Events: it.rc.Events, Case: it.rc, Known: known})
 	}
-	for _, s := range open {
-		if s != nil {
-			seqs = append(seqs, *s)
-		}
-	}
-	if len(pat) > 0 {
-		seqs = append(seqs, seq{"TracePeach", pat, capKnown})
-	}
-	c.Set("runs_showing_the_known_pattern", len(pat))
-	var mu sync.Mutex
-	var firstErr error
-	skipped := 0
-	lib.Parallel(len(seqs), 6, func(si int) {
-		s := seqs[si]
-		idx := s.idx
-		rejections := 0
-		for len(idx) > 0 {
-			if rejections >= s.cap {
-				mu.Lock()
-				skipped += len(idx)
-				mu.Unlock()
-				return
-			}
-			var evs []drv.Event
-			var ends []int
-			for _, i := range idx {
-				evs = append(evs, items[i].rc.Events...)
-				ends = append(ends, len(evs))
-			}
-			v, err := lib.ValidateTrace(c, s.module, dir, s.module, evs, 14*time.Minute)
-			mu.Lock()
-			if err != nil {
-				if firstErr == nil {
-					firstErr = err
-				}
-				mu.Unlock()
-				return
-			}
-			if v.Accepted {
-				c.AddTraces(len(idx))
-				mu.Unlock()
-				return
-			}
-			pos := position(v)
-			off := pos // index of the first unmatched event, or of the event whose step violated a property
-			if v.InvName != "" && off > 0 {
-				off--
-			}
-			k := 0
-			for k < len(ends)-1 && off >= ends[k] {
-				k++
-			}
-			start := 0
-			if k > 0 {
-				start = ends[k-1]
-			}
-			c.AddTraces(k + 1)
-			v.HighWater = pos - start
-			reject(c, items[idx[k]].what, items[idx[k]].rc, v)
-			mu.Unlock()
-			rejections++
-			idx = idx[k+1:]
-		}
+	c.Set("runs_showing_the_known_pattern", npat)
+	skipped, err := drv.JudgeAll(c, dir, nil, its, capKnown, 4000, 6, func(it drv.Item, v *lib.TraceVerdict) {
+		reject(c, it.What, it.Case.(replayCase), v)
 	})
-	if firstErr != nil {
-		return firstErr
-	}
 	c.Set("runs_not_judged_after_the_known_pattern_was_rejected_cap_times", skipped)
-	return nil
+	return err
 }
 
 func hasNonOk(c drv.Cfg) bool {
@@ -440,116 +342,6 @@ func startsAfterNonOk(evs []drv.Event) bool {
 		}
 	}
 	return false
-}
-
-func asInt(v any) int {
-	if n, ok := v.(int64); ok {
-		return int(n)
-	}
-	return -1
-}
-
-func seqOf(v any) []any {
-	switch v := v.(type) {
-	case []any:
-		return v
-	case lib.TLAFun:
-		out := make([]any, len(v))
-		for _, p := range v {
-			if k := asInt(p.K); k >= 1 && k <= len(v) {
-				out[k-1] = p.V
-			}
-		}
-		return out
-	}
-	return nil
-}
-
-// scheduleOf projects a TLC counterexample of MCPeach to its configuration and its gate-able events.
-func scheduleOf(r *lib.TLCResult) (drv.Cfg, []drv.Step, error) {
-	sts := r.TraceStates()
-	if len(sts) < 2 {
-		return drv.Cfg{}, nil, fmt.Errorf("no states")
-	}
-	return scheduleOfStates(sts)
-}
-
-func cfgOf(st map[string]any) (drv.Cfg, error) {
-	var cfg drv.Cfg
-	m, ok := st["cfg"].(map[string]any)
-	if !ok {
-		return cfg, fmt.Errorf("cfg not parsed: %v", st["cfg"])
-	}
-	cfg.Mode, _ = m["mode"].(string)
-	cfg.N = asInt(m["n"])
-	cfg.Bound = asInt(m["bound"])
-	for _, x := range seqOf(m["res"]) {
-		s, _ := x.(string)
-		cfg.Res = append(cfg.Res, s)
-	}
-	for _, x := range seqOf(m["nout"]) {
-		cfg.Nout = append(cfg.Nout, asInt(x))
-	}
-	if len(cfg.Res) != cfg.N || len(cfg.Nout) != cfg.N {
-		return cfg, fmt.Errorf("cfg inconsistent: %v", m)
-	}
-	return cfg, nil
-}
-
-func scheduleOfStates(sts []map[string]any) (drv.Cfg, []drv.Step, error) {
-	cfg, err := cfgOf(sts[0])
-	if err != nil {
-		return cfg, nil, err
-	}
-	changed := func(a, b map[string]any, name string) int {
-		x, y := seqOf(a[name]), seqOf(b[name])
-		for k := range x {
-			if k < len(y) && fmt.Sprint(x[k]) != fmt.Sprint(y[k]) {
-				return k + 1
-			}
-		}
-		return -1
-	}
-	var sched []drv.Step
-	str := func(st map[string]any, name string) string { x, _ := st[name].(string); return x }
-	for k := 1; k < len(sts); k++ {
-		p, q := sts[k-1], sts[k]
-		// the step is identified by what changed (TLC labels the steps under \E only with "Next")
-		switch {
-		case str(p, "fpc") == "acqenter" && str(q, "fpc") == "acquire":
-			sched = append(sched, drv.Step{Ev: "AcqEnter"})
-		case str(p, "fpc") == "acqret" && str(q, "fpc") == "decide":
-			sched = append(sched, drv.Step{Ev: "AcqRet"})
-		case str(p, "fpc") != "returned" && str(q, "fpc") == "returned":
-			sched = append(sched, drv.Step{Ev: "Returned"})
-		case p["cancelled"] == false && q["cancelled"] == true:
-			sched = append(sched, drv.Step{Ev: "CancelStart"})
-		case changed(p, q, "pos") > 0:
-			sched = append(sched, drv.Step{Ev: "Put", I: changed(p, q, "pos")})
-		case changed(p, q, "wpc") > 0:
-			i := changed(p, q, "wpc")
-			from, _ := seqOf(p["wpc"])[i-1].(string)
-			to, _ := seqOf(q["wpc"])[i-1].(string)
-			switch {
-			case from == "none" && to == "spawned":
-				if cfg.Mode != "runpar" {
-					sched = append(sched, drv.Step{Ev: "Spawn"})
-				}
-			case from == "spawned" && to == "run":
-				sched = append(sched, drv.Step{Ev: "CbStart", I: i})
-			case from == "run":
-				sched = append(sched, drv.Step{Ev: "CbEnd", I: i})
-			case to == "released":
-				sched = append(sched, drv.Step{Ev: "Release", I: i})
-			}
-		}
-	}
-	for _, s := range sched {
-		if s.I < 0 {
-			return cfg, nil, fmt.Errorf("could not attribute a worker step: %v", sched)
-		}
-	}
-	return cfg, sched, nil
 }
 
 type simCase struct {
